@@ -27,6 +27,8 @@ import (
 	"sync"
 	"sync/atomic"
 	"time"
+
+	syscall "golang.org/x/sys/unix"
 )
 
 // Session is used to wrap a reliable ordered connection and to
@@ -162,6 +164,9 @@ func newSession(config *Config, conn net.Conn, isClient bool) (*Session, error) 
 		if s.bufferManager != nil {
 			addGlobalBufferManagerRefCount(s.bufferManager.path, -1)
 		}
+		// the duplicated descriptor is ours: without this the connection stays open until the finalizer of fd runs,
+		// and the peer keeps waiting on a session that does not exist.
+		fd.Close()
 		return nil, err
 	}
 
@@ -191,10 +196,12 @@ func newSessionLogger(isClient bool, out io.Writer) *logger {
 func (s *Session) initProtocol() error {
 	s.logger.infof("starting initializes shmipc protocol")
 	resultCh := make(chan error, 1)
+	done := make(chan struct{})
 	timeout := time.NewTimer(s.config.InitializeTimeout)
 	defer timeout.Stop()
 
 	go func() {
+		defer close(done)
 		// initializing protocol , maybe block
 		protoAdaptor := newProtocolAdaptor(s)
 		initializer, err := protoAdaptor.getProtocolInitializer()
@@ -215,6 +222,11 @@ func (s *Session) initProtocol() error {
 	case err := <-resultCh:
 		return err
 	case <-timeout.C:
+		// The initializing goroutine may still be blocked in a read, or may be about to map the memory and to
+		// acknowledge. Shut the connection down, which makes its next read or write fail (and the peer fail as well),
+		// and wait until it is gone: it must not complete the handshake after we have reported a failure.
+		_ = syscall.Shutdown(s.connFd, syscall.SHUT_RDWR)
+		<-done
 		return fmt.Errorf("protocolInitializer init timeout:%d ms",
 			s.config.InitializeTimeout/time.Millisecond)
 	}
